@@ -139,7 +139,17 @@ class _VersionMatch(GenericEquality, restriction.base):
 
     # TODO: cached_hash?
     def __hash__(self):
-        return hash((self.droprev, self.ver, self.rev, self.negate, self.vals))
+        # must agree with __eq__: operators are compared after folding negate in,
+        # and revisions compare as integers (None, "" and "0" are all revision 0)
+        rev = self.rev
+        if not rev:
+            rev = 0
+        else:
+            try:
+                rev = int(rev)
+            except ValueError:
+                pass
+        return hash((self.droprev, self.ver, rev, self._convert_ops(self)))
 
 
 class VersionMatch(packages.PackageRestriction):
